@@ -77,6 +77,7 @@ impl EditState {
                 }
                 removed_chars = (removed_chars as f32 / 2.0).ceil() as i32;
                 for x in area.x_range() {
+                    let x = x - area.left();
                     let ch = if area.right() - x - removed_chars >= area.left() {
                         layer.get_char((area.right() - x - removed_chars, y))
                     } else {
